@@ -115,6 +115,24 @@ def calls_b(x: fp.Real, n: fp.Real) -> fp.Real:
 
 
 @fp.fpy
+def static_nest(c: fp.Real, ys: list[fp.Real]) -> fp.Real:
+    # loops of statically known length whose bodies define no new variable and hold sites two
+    # blocks deep: what a split with a remainder duplicates
+    acc = 141.0
+    y = 142.0
+    for i in range(7):
+        if i > c:
+            acc = acc + leaf(i) * 143
+            for y in ys:
+                acc = acc + y * i
+    for k in range(5):
+        acc = acc + k * 144
+        if k > c:
+            acc = acc - mid(k)
+    return acc
+
+
+@fp.fpy
 def calls_c(x: fp.Real, y: fp.Real) -> fp.Real:
     a = x + 131
     if leaf(a) > 132:
@@ -208,7 +226,7 @@ def _pin(func, n):
 ir_a = _pin(_ir_a, 3)     # pinned formats: what `insert_round` needs to find its sites
 
 
-ROOTS = ['loops_a', 'loops_b', 'odd_trip', 'nest_trip', 'calls_a', 'calls_b', 'calls_c', 'rounds_a', 'rounds_b', 'mixed']
+ROOTS = ['loops_a', 'loops_b', 'odd_trip', 'nest_trip', 'static_nest', 'calls_a', 'calls_b', 'calls_c', 'rounds_a', 'rounds_b', 'mixed']
 
 
 # ---------------------------------------------------------------------------
